@@ -307,7 +307,7 @@ def check(P: Project, R: Report) -> None:
     # … recording the client's info: the `clientInfo` member of the request as it came, not a rendering of it
     def _direct_client_info(t: str) -> bool:
         t = t.strip("<>")
-        return bool(re.search(r"\.get\('clientInfo'(, (\{\}|None|dict\(\)))?\)$", t)) or t.endswith("['clientInfo']")
+        return bool(re.search(r"\.get\('clientInfo'(, (\{\}|None|dict\(\)|[A-Za-z_][\w.]*))?\)$", t)) or t.endswith("['clientInfo']")
 
     def _client_info_reason(o: str, host) -> Optional[str]:
         """None if `o` (the origin of create_session's first argument) is the request's clientInfo member; else what it is"""
@@ -334,6 +334,8 @@ def check(P: Project, R: Report) -> None:
         return None if not bad_ else f"`{bad_[0]}` (returned by {g_.qual})"
 
     n_ci = 0
+    n_direct = 0
+    empties = []
     seen_ci = set()
     for st, node in io.ret:
         created = [e[len("create:"):].split("\x1f") for e in st.events if e.startswith("create:")]
@@ -344,10 +346,17 @@ def check(P: Project, R: Report) -> None:
             continue
         seen_ci.add(o)
         n_ci += 1
+        if o.strip("<>") in ("{}", "dict()"):
+            empties.append((node, o))  # "the client sent none": judged below, once the other paths are known
+            continue
         why = _client_info_reason(o, ih)
+        n_direct += why is None
         R.ob("R2", "the session records the client's info as the request carried it", why is None, f"{ih.module.rel}:{node.lineno}",
              f"create_session is given {why}: not the request's `clientInfo` member itself — a rendering through a model fills in that model's defaults for members the client left out and drops explicit nulls, so the record is no longer what the client sent",
              sample=f"R2 client info := {o[:60]}")
+    for node, o in empties:
+        # an empty record is what the handler stores for a request without the member — as long as some other path stores the member
+        R.ob("R2", "an empty client info is recorded only beside a path that records the request's own", n_direct >= 1, f"{ih.module.rel}:{node.lineno}", "create_session is given `{}` on every path: the client's info is never recorded")
     R.need(n_ci >= 1, "anchor: no returning path of the initialize handler creates a session")
     for st, node in io.ret:
         n = st.count_prefix("create:")
